@@ -189,6 +189,10 @@ def loader_history_witness(quick=True):
                 (fsdir / f"{nm}.j2").write_text("fs")
             for nm in pkg_names:
                 (pkgroot / pkgname / "templates" / f"{nm}.j2").write_text("pkg")
+            # distractors: dotted work-in-progress copies are NOT templates named after a class
+            for nm in rnd.sample(names, 3):
+                (fsdir / f"{nm}.wip.j2").write_text("distractor")
+                (pkgroot / pkgname / "templates" / f"{nm}.orig.j2").write_text("distractor")
             sys.path.insert(0, str(pkgroot))
             importlib.invalidate_caches()
             try:
@@ -330,6 +334,80 @@ def main():
     if q in ix.fns:
         ok = "search_policy=ResourceSearchPolicy.FIND_FIRST" in ast.unparse(ix.fns[q].node)
         run.add_check("DSDLCodeGenerator.__init__#single-active-template-set(FIND_FIRST)", ok, "E-FX", 0, "")
+    # template names are the file stems (what comes before the .j2 suffix, dots included)
+    q = "nunavut.jinja.loaders:DSDLTemplateLoader.type_to_template"
+    if q in ix.fns:
+        lams = [ast.unparse(n.body) for n in ast.walk(ix.fns[q].node) if isinstance(n, ast.Lambda)]
+        ok = len(lams) == 2 and all(l == "(pathlib.Path(x).stem, pathlib.Path(x))" for l in lams)
+        run.add_check("type_to_template#template-table-keyed-by-file-stem", ok, "E-FX structure", 0, f"{lams}")
+        if not ok:
+            w = witness()
+            run.fail(report.Failure("type_to_template#template-table-keyed-by-file-stem", "post", f"template table keyed by {lams}" + (f"; {w['input']}: {w['why']}" if w else ""), {"witness": w}, bool(w)))
+    # get_source: a user template of the same name wins, the package is the fallback (E-PY contract)
+    eng2 = epy.Engine(SRC)
+    FS = Contract(target="x:FsLoader.get_source", params={"self": SObj("FsLoader", {}), "environment": SObj("Env", {}), "template": SStr}, result=SInt,
+                  raises=[Raises("TemplateNotFound", "not fs_has")], ensures=[("fs", "result == 1")])
+    PK = Contract(target="x:PkgLoader.get_source", params={"self": SObj("PkgLoader", {}), "environment": SObj("Env", {}), "template": SStr}, result=SInt,
+                  raises=[Raises("TemplateNotFound", "not pkg_has")], ensures=[("pkg", "result == 2")])
+    eng2.add_contract(FS, "FsLoader.get_source")
+    eng2.add_contract(PK, "PkgLoader.get_source")
+    GET_SOURCE = Contract(
+        target="nunavut/jinja/loaders.py:DSDLTemplateLoader.get_source",
+        params={"self": SObj("DSDLTemplateLoader", {"_fsloader": epy.SOpt(SObj("FsLoader", {})), "_package_loader": epy.SOpt(SObj("PkgLoader", {}))}),
+                "environment": SObj("Env", {}), "template": SStr},
+        ghost={"fs_has": SBool, "pkg_has": SBool},
+        raises=[Raises("TemplateNotFound", "not ((self._fsloader is not None and fs_has) or (self._package_loader is not None and pkg_has))")],
+        ensures=[("user-template-of-the-same-name-wins", "implies(self._fsloader is not None and fs_has, result == 1)"),
+                 ("package-is-the-fallback", "implies(not (self._fsloader is not None and fs_has), result == 2)")],
+        bindings={"TemplateNotFound": ("exc", "TemplateNotFound")},
+    )
+
+    def source_witness():
+        from nunavut.jinja.loaders import DSDLTemplateLoader
+        from nunavut.jinja.jinja2 import Environment
+        import sys, importlib
+        base = pathlib.Path(tempfile.mkdtemp(prefix="vk_c16s_"))
+        try:
+            _COUNTER[0] += 1
+            pk = f"vksrc{_COUNTER[0]}"
+            (base / "fs/sub").mkdir(parents=True)
+            (base / "real").mkdir()
+            (base / "pk" / pk / "templates").mkdir(parents=True)
+            (base / "pk" / pk / "__init__.py").write_text("")
+            (base / "pk" / pk / "templates/__init__.py").write_text("")
+            for nm in ("base.j2", "sub/x.j2", "linked/y.j2"):
+                p = base / "pk" / pk / "templates" / nm
+                p.parent.mkdir(parents=True, exist_ok=True)
+                p.write_text("PKG")
+            (base / "fs/base.j2").write_text("USER")
+            (base / "fs/sub/x.j2").write_text("USER")
+            (base / "real/y.j2").write_text("USER")
+            (base / "fs/linked").symlink_to(base / "real")
+            sys.path.insert(0, str(base / "pk"))
+            importlib.invalidate_caches()
+            try:
+                ld = DSDLTemplateLoader(templates_dirs=[base / "fs"], package_name_for_templates=pk)
+                env = Environment()
+                for nm in ("base.j2", "./base.j2", "sub/x.j2", "linked/y.j2"):
+                    src = ld.get_source(env, nm)[0]
+                    if src != "USER":
+                        return {"input": {"template": nm}, "why": f"get_source({nm!r}) served {src!r} although the user directory holds a template of that name"}
+            finally:
+                sys.path.remove(str(base / "pk"))
+            return None
+        finally:
+            shutil.rmtree(base, ignore_errors=True)
+
+    driver.verify_contracts(run, eng2, [GET_SOURCE], witness={"DSDLTemplateLoader.get_source": source_witness})
+    # language globals are written unconditionally after the user's globals (a user global cannot displace typename_* / valuetoken_*)
+    q = "nunavut.jinja.environment:CodeGenEnvironment._update_language_support"
+    if q in ix.fns:
+        hits = [(n, g) for n, g in efx.walk_with_guards(ix.fns[q].node) if isinstance(n, ast.Call) and ast.unparse(n) == "self.globals.update(target_language.get_globals())"]
+        ok = len(hits) == 1 and not hits[0][1]
+        run.add_check("_update_language_support#language-globals-written-unconditionally", ok, "E-FX guard dominance", 0, f"{[(ast.unparse(n), g) for n, g in hits]}")
+        if not ok:
+            run.fail(report.Failure("_update_language_support#language-globals-written-unconditionally", "post",
+                                    "the target language's globals (typename_*, valuetoken_*) are not written unconditionally over user-supplied globals of the same name", {}, False))
     # (T4) environment: names cannot be replaced silently
     eng = epy.Engine(SRC)
     COLL = SData("(Array String Bool)")
